@@ -73,8 +73,16 @@ def showBits (b : List Bool) : String :=
 def showSeg (x : Seg × List Bool) : String :=
   s!"{showRes x.1.res};{",".intercalate (x.1.events.map showEvent)};{showBits x.2}"
 
+/-- `GR:<cfg>` — a reload attempted while the shutdown pass runs — is the shutdown pass (atomic: nothing can change the instance
+list while it runs) followed by the reload -/
+def parseOps (s : String) : Option (List Op) :=
+  if s.startsWith "GR:" then (parseCfg (s.drop 3).toString).map fun c => [.signal 1, .restart c]
+  else (parseOp s).map fun o => [o]
+
+def parseHistory (f : List String) : Option (List Op) := (f.mapM parseOps).map List.flatten
+
 def traceModel (f : List String) : String :=
-  match f.mapM parseOp with
+  match parseHistory f with
   | none => "bad-case"
   | some ops => "|".intercalate ((run ops).map showSeg)
 
@@ -116,7 +124,7 @@ def parseSeg (s : String) : Option (Seg × List Bool) :=
   | _ => none
 
 def traceJudge (f : List String) (out : String) : String :=
-  match f.mapM parseOp with
+  match parseHistory f with
   | none => if out = "bad-case" then "ok" else "bad:malformed-case-accepted:" ++ out
   | some ops =>
     if (out.splitOn "|").any (fun seg => seg.startsWith "hang;") then "bad:stop-never-returns:casket.Stop() did not return" else
